@@ -34,6 +34,7 @@ RULE = ('random adiabatic cores on 7 positions with 2-7 assemblies of 1-2 '
         'all ordered pairs; each of up to 3 assemblies re-run stand-alone; '
         'non-trivial when >= 2 assemblies share a type and the coolant rise '
         'is > 5 K; distinct by (types, count, tdep)')
+RULE += (' Later rounds added: cores in user units with several positions on one Assignment line; kind gapcore (gap model on, twin model with all foreign gap cells heated by 75 K).')
 DECIDING = ['N1_other_assembly_state_untouched', 'S1_standalone_same_fields']
 CASE_TIMEOUT = {'quick': 300, 'thorough': 900}
 BUDGET = {'quick': 800, 'thorough': 3300}
